@@ -10,7 +10,7 @@ RULE = (
     "per base mesh the complete pair space: {reflexive, copy, twin from the same source, one longitude changed, "
     "one latitude changed, two corners of one face swapped, one connectivity entry replaced, one padding entry replaced by a node (and the reverse), one extra all-padding column, one extra node, one "
     "node fewer (unused), one extra face, one face fewer, same arrays read through another format (UGRID dataset), "
-    "non-Grid operands} x both operand orders x {==, !=}. Oracle: equal iff same format and identical node_lon, "
+    "non-Grid operands} x both operand orders x {==, !=}; plus histories: a copy (or the original) edited in place after copy() in one connectivity entry / longitude / latitude, and two grids built from the same array objects of which one gets a coordinate replaced through the node_lon / node_lat setter (the untouched grid must still equal a never-touched reference). Oracle: equal iff same format and identical node_lon, "
     "node_lat, face_node_connectivity. Non-trivial = a twin differing in exactly one array from the base."
 )
 ASSUMPTIONS = ["twins are built from independently copied arrays through Grid.from_topology / a UGRID dataset"]
@@ -137,4 +137,69 @@ def run_case(ctx, case):
         ctx.observe("twin_" + name)
         if name in ("one_lon", "one_lat", "swap_in_face", "one_conn_entry", "fill_to_node", "node_to_fill"):
             ctx.mark_nontrivial(name)
+    # ---- histories: grids that were equal and then had ONE entry changed through the grid's own arrays / setters.
+    # reference = a grid built from independently copied arrays, never touched
+    import xarray as xr
+
+    def judge(name, a, b, want, extra=None):
+        sig = dict({"history": name}, **(extra or {}))
+        try:
+            eq, ne = a == b, a != b
+        except Exception as e:
+            ctx.check("no_exception", False, dict(sig, exc=core.exc_sig(e)), {"exc": repr(e)})
+            return
+        ctx.check("eq_matches_model", isinstance(eq, (bool, np.bool_)) and bool(eq) == want, sig, {"eq": repr(eq), "want": want, "mesh": case["mesh"]})
+        ctx.check("ne_is_negation", isinstance(ne, (bool, np.bool_)) and bool(ne) == (not bool(eq)), sig, {"eq": repr(eq), "ne": repr(ne)})
+        try:
+            ctx.check("symmetric", bool(b == a) == bool(eq), sig, None)
+        except Exception:
+            pass
+
+    reference = mk(lon, lat, conn)
+    f = int(rng.integers(0, len(conn)))
+    # (1) copy, then one connectivity entry / one longitude / one latitude of the COPY edited in place
+    for what in ("connectivity", "node_lon", "node_lat"):
+        orig = mk(lon, lat, conn)
+        dup = orig.copy()
+        try:
+            if what == "connectivity":
+                v = dup.face_node_connectivity.values
+                v[f, 0], v[f, 1] = v[f, 1], v[f, 0]
+            else:
+                v = getattr(dup, what).values
+                v[i] = v[i] + (0.001 if v[i] < 80 else -0.001)
+        except Exception as e:
+            ctx.check("no_exception", False, {"history": "edit_copy_" + what, "exc": core.exc_sig(e)}, {"exc": repr(e)})
+            continue
+        judge("copy_then_edit_copy_in_place", orig, dup, False, {"what": what})
+        judge("copy_then_edit_copy_in_place:original_vs_reference", orig, reference, True, {"what": what})
+        # and the other way round: the ORIGINAL edited after the copy was taken
+        orig2 = mk(lon, lat, conn)
+        dup2 = orig2.copy()
+        if what == "connectivity":
+            v = orig2.face_node_connectivity.values
+            v[f, 0], v[f, 1] = v[f, 1], v[f, 0]
+        else:
+            v = getattr(orig2, what).values
+            v[i] = v[i] + (0.001 if v[i] < 80 else -0.001)
+        judge("copy_then_edit_original_in_place", orig2, dup2, False, {"what": what})
+        judge("copy_then_edit_original_in_place:copy_vs_reference", dup2, reference, True, {"what": what})
+    # (2) two grids built from the SAME coordinate array objects; one coordinate of the second replaced through the setter
+    for what in ("node_lon", "node_lat"):
+        A_lon, A_lat, A_conn = np.array(lon), np.array(lat), np.array(conn)
+        first = U.Grid.from_topology(A_lon, A_lat, A_conn, fill_value=ux.INT_FILL)
+        second = U.Grid.from_topology(A_lon, A_lat, A_conn, fill_value=ux.INT_FILL)
+        judge("same_arrays_two_grids", first, second, True, {"what": what})
+        nv = np.array(getattr(second, what).values, dtype=float)
+        nv[i] = nv[i] + (0.001 if nv[i] < 80 else -0.001)
+        try:
+            setattr(second, what, xr.DataArray(nv, dims=getattr(second, what).dims, attrs=getattr(second, what).attrs))
+        except Exception as e:
+            ctx.check("no_exception", False, {"history": "setter_" + what, "exc": core.exc_sig(e)}, {"exc": repr(e)})
+            continue
+        judge("same_arrays_then_setter_on_second", first, second, False, {"what": what})
+        judge("same_arrays_then_setter_on_second:first_vs_reference", first, reference, True, {"what": what})
+        third = second.copy()
+        judge("same_arrays_then_setter_on_second:copy_of_second", second, third, True, {"what": what})
+    ctx.observe("histories")
     ctx.sample({"mesh": case["mesh"], "twins": [t[0] for t in twins]})
